@@ -498,6 +498,9 @@ def run(ctx):
                            f"`{n_.target.id} = {ast.unparse(a_.value)[:60]}` is allocated in the namespace's default width and then updated in place: under torch (default float32) a transform "
                            "built for float64 reports its log-Jacobian rounded to float32, so inverse and forward log-Jacobians agree to about 1e-7 only", disc=n_.target.id)
     ctx.floor("log-Jacobian accumulators updated in place", n_acc, 2)
+    # ---- the flow used as a preconditioning map reports its log-Jacobian deterministically (no stochastic trace estimator), shared with C03
+    from .c03 import exact_option_rule
+    exact_option_rule(ctx, "C04.form")
     from . import cachecoh
     cachecoh.rule(ctx, "C04.stale", ("aspire.transforms",), "the reported log-Jacobian is that of an earlier fit, not of the map now applied")
     # ---- every constructor parameter of a transform takes effect: it is stored, read, or handed to super().__init__ (a parameter that is
@@ -849,6 +852,9 @@ MUTANTS += [
 MUTANTS += [
     M("log-Jacobian accumulator allocated in the namespace's default width", "src/aspire/transforms.py", "log_abs_det_jacobian = self.xp.zeros(\n            len(x), device=self.device, dtype=self.dtype\n        )\n        if self.periodic_parameters:",
       "log_abs_det_jacobian = self.xp.zeros(len(x), device=self.device)\n        if self.periodic_parameters:", "C04.alloc"),
+]
+MUTANTS += [
+    M("flow matching defaults to the Hutchinson trace estimate", "src/aspire/flows/torch/flows.py", "kwargs.setdefault(\"hidden_features\", 4 * [100])", "kwargs.setdefault(\"hidden_features\", 4 * [100])\n        kwargs.setdefault(\"exact\", False)", "C04.form"),
 ]
 NEUTRALS = [
     M("log-Jacobian built without in-place updates", "src/aspire/transforms.py", "x, log_j_affine = self._affine_transform.forward(x)\n            log_abs_det_jacobian += log_j_affine",
